@@ -41,6 +41,7 @@ class C12(Campaign):
     quick_runs = 2500
     thorough_runs = 40000
     fault_kinds = ["late-listener@op", "re-attach@op (same object again)", "several instances interleaved",
+                   "distinct listener objects that compare and hash equal",
                    "listener attached first to a shallow copy (copy.copy) of the machine, then to the machine",
                    "guard name provided by several objects", "coroutine listener (constructor or late)"]
     rule = ("one run = a generated machine whose callback names (actions of every group, plain-name guards and "
@@ -65,6 +66,8 @@ class C12(Campaign):
                       p_unknown_event=0.04, n_ops=(5, 18), p_ret=0.4, p_shared_name=0.35)
         sc = gen.gen_scenario(rnd, k, profile="C12")
         prog = sc["programs"][0]
+        # distinct listener objects that compare equal (value-based __eq__): still distinct providers
+        prog["listener_eq_all"] = rnd.random() < 0.2
         ls = list(prog["listeners"])
         rnd.shuffle(ls)
         # constructor listeners: as few as the inline names allow; the rest is attached late
@@ -97,6 +100,11 @@ class C12(Campaign):
                     m["async"] = True
                 else:
                     m.pop("async", None)
+        if prog.get("listener_eq_all") and len(ctor) + len(late) > 2:
+            # the library keeps attached listeners in a dict keyed by the objects: with more than two
+            # equal-comparing listeners its own record collapses (C17's known finding), so this variant
+            # stays at one attached + one new listener
+            prog["listener_eq_all"] = False
         is_async_ctor = any(m.get("async") for c, m in prog["cbs"].items()
                             if c.split(".", 1)[0] in ["machine", "model"] + ctor)
         new = sc["ops"][0]
@@ -116,7 +124,8 @@ class C12(Campaign):
             out.append(nb)
         pending = list(late)
         attached = {"A": list(ctor), "B": list(nb["listeners"]) if two else []}
-        shallow = (not two) and bool(late) and not is_async_ctor and rnd.random() < 0.2
+        shallow = (not two) and bool(late) and not is_async_ctor and rnd.random() < 0.2 \
+            and not prog.get("listener_eq_all")  # (copies of equal-comparing listeners: C17's known finding)
         if shallow:
             # a shallow copy shares the listener OBJECTS with the original; what is attached to one
             # machine is still a per-machine matter.  The copy is never driven here.
@@ -129,7 +138,7 @@ class C12(Campaign):
                 if shallow and rnd.random() < 0.7:
                     out.append({"op": "add_listener", "inst": "S", "listeners": [role]})
                 roles_ = [role]
-                if attached[inst] and rnd.random() < 0.4:
+                if attached[inst] and rnd.random() < 0.4 and not prog.get("listener_eq_all"):
                     # re-attaching the whole (grown) list in one call: attached ones first, new ones after
                     roles_ = rnd.sample(attached[inst], rnd.randint(1, len(attached[inst]))) + [role]
                     if pending and rnd.random() < 0.5:
@@ -138,7 +147,7 @@ class C12(Campaign):
                         attached[inst].append(extra_role)
                 out.append({"op": "add_listener", "inst": inst, "listeners": roles_})
                 attached[inst].append(role)
-            elif attached[inst] and r < 0.35:
+            elif attached[inst] and r < 0.35 and not prog.get("listener_eq_all"):
                 out.append({"op": "add_listener", "inst": inst, "listeners": [rnd.choice(attached[inst])],
                             "again": True})
             op = dict(op)
